@@ -844,7 +844,7 @@ class Executor:
             yield st, NONEV
             return
         if isinstance(f, ast.Name) and f.id == "cast" and len(node.args) == 2:
-            tname = node.args[0].id if isinstance(node.args[0], ast.Name) else None
+            tname = node.args[0].id if isinstance(node.args[0], ast.Name) else (node.args[0].value if isinstance(node.args[0], ast.Constant) else None)
             for st1, v in self.ev(node.args[1], st, sink):
                 hook = self.w.call_hooks.get(("cast", tname))
                 if hook is not None and v.ty.kind == "any":
@@ -1899,7 +1899,14 @@ class Executor:
             if name == "self" or (fn.args.args and name == fn.args.args[0].arg and "." in c.qualname and v.ty.kind == "ref" and c.qualname.split(".")[-2] in mod.classes and not _is_static(fn)):
                 if v.ty.kind == "ref":
                     st.assume(v.v > 0)
-        a = Args(params)
+        clos = None
+        if c.closure:
+            clos = {n: fresh(t, n) for n, t in c.closure.items()}   # free variables of a nested function: symbolic like parameters
+            self.inputs.update(clos)
+            for v in clos.values():
+                for r in _refs_in(v):
+                    st.assume(z3.Or(r == 0, self.alloc_sel(st.heap, r)))
+        a = Args(dict(params, **(clos or {})))
         if getattr(c, "held_on_entry", None):
             st.held = tuple(c.held_on_entry(a, HeapView(st.heap)))  # the contract says the caller holds these locks
         h0 = HeapView(st.heap.copy(), st.held)
@@ -1917,7 +1924,7 @@ class Executor:
                 self.inputs["probe_" + pname] = SV(ty, pc)
         self.cur_old = h0.heap
         st.locals = dict(params)
-        self.frame = Frame(mod, qual)
+        self.frame = Frame(mod, qual, closure=clos)
         self.frames = []
         self.written_fields = set()
         flows = self.exec_block(fn.body, st)
